@@ -2,8 +2,8 @@ package engine
 
 import (
 	"fmt"
-	"regexp"
 	"go/types"
+	"regexp"
 	"strconv"
 	"strings"
 
@@ -390,76 +390,88 @@ func init() {
 
 	reg("(*sync.Map).Load", func(fr *frame, args []Value) Value {
 		x := fr.x
-		m := x.smap(args[0].(Ptr))
-		if i := x.mapFind(m, args[1]); i >= 0 {
-			return Tuple{m.ents[i].v, x.ts.T}
-		}
-		return Tuple{Iface{}, x.ts.F}
+		return x.smapOp(args[0].(Ptr), true, func(m *Map) Value {
+			if i := x.mapFind(m, args[1]); i >= 0 {
+				return Tuple{m.ents[i].v, x.ts.T}
+			}
+			return Tuple{Iface{}, x.ts.F}
+		})
 	})
 	reg("(*sync.Map).Store", func(fr *frame, args []Value) Value {
 		x := fr.x
-		x.mapSet(x.smap(args[0].(Ptr)), args[1], args[2])
-		return nil
+		return x.smapOp(args[0].(Ptr), false, func(m *Map) Value {
+			x.mapSet(m, args[1], args[2])
+			return nil
+		})
 	})
 	reg("(*sync.Map).LoadOrStore", func(fr *frame, args []Value) Value {
 		x := fr.x
-		m := x.smap(args[0].(Ptr))
-		if i := x.mapFind(m, args[1]); i >= 0 {
-			return Tuple{m.ents[i].v, x.ts.T}
-		}
-		x.mapSet(m, args[1], args[2])
-		return Tuple{args[2], x.ts.F}
+		return x.smapOp(args[0].(Ptr), false, func(m *Map) Value {
+			if i := x.mapFind(m, args[1]); i >= 0 {
+				return Tuple{m.ents[i].v, x.ts.T}
+			}
+			x.mapSet(m, args[1], args[2])
+			return Tuple{args[2], x.ts.F}
+		})
 	})
 	reg("(*sync.Map).LoadAndDelete", func(fr *frame, args []Value) Value {
 		x := fr.x
-		m := x.smap(args[0].(Ptr))
-		if i := x.mapFind(m, args[1]); i >= 0 {
-			v := m.ents[i].v
-			x.mapDelete(m, args[1])
-			return Tuple{v, x.ts.T}
-		}
-		return Tuple{Iface{}, x.ts.F}
+		return x.smapOp(args[0].(Ptr), false, func(m *Map) Value {
+			if i := x.mapFind(m, args[1]); i >= 0 {
+				v := m.ents[i].v
+				x.mapDelete(m, args[1])
+				return Tuple{v, x.ts.T}
+			}
+			return Tuple{Iface{}, x.ts.F}
+		})
 	})
 	reg("(*sync.Map).Delete", func(fr *frame, args []Value) Value {
 		x := fr.x
-		x.mapDelete(x.smap(args[0].(Ptr)), args[1])
-		return nil
+		return x.smapOp(args[0].(Ptr), false, func(m *Map) Value {
+			x.mapDelete(m, args[1])
+			return nil
+		})
 	})
 	reg("(*sync.Map).Swap", func(fr *frame, args []Value) Value {
 		x := fr.x
-		m := x.smap(args[0].(Ptr))
-		if i := x.mapFind(m, args[1]); i >= 0 {
-			old := m.ents[i].v
+		return x.smapOp(args[0].(Ptr), false, func(m *Map) Value {
+			if i := x.mapFind(m, args[1]); i >= 0 {
+				old := m.ents[i].v
+				x.mapSet(m, args[1], args[2])
+				return Tuple{old, x.ts.T}
+			}
 			x.mapSet(m, args[1], args[2])
-			return Tuple{old, x.ts.T}
-		}
-		x.mapSet(m, args[1], args[2])
-		return Tuple{Iface{}, x.ts.F}
+			return Tuple{Iface{}, x.ts.F}
+		})
 	})
 	reg("(*sync.Map).CompareAndSwap", func(fr *frame, args []Value) Value {
 		x := fr.x
-		m := x.smap(args[0].(Ptr))
-		if i := x.mapFind(m, args[1]); i >= 0 {
-			if x.Branch(x.equal(nil, m.ents[i].v, args[2])) {
-				x.mapSet(m, args[1], args[3])
-				return x.ts.T
+		return x.smapOp(args[0].(Ptr), false, func(m *Map) Value {
+			if i := x.mapFind(m, args[1]); i >= 0 {
+				if x.Branch(x.equal(nil, m.ents[i].v, args[2])) {
+					x.mapSet(m, args[1], args[3])
+					return x.ts.T
+				}
 			}
-		}
-		return x.ts.F
+			return x.ts.F
+		})
 	})
 	reg("(*sync.Map).CompareAndDelete", func(fr *frame, args []Value) Value {
 		x := fr.x
-		m := x.smap(args[0].(Ptr))
-		if i := x.mapFind(m, args[1]); i >= 0 {
-			if x.Branch(x.equal(nil, m.ents[i].v, args[2])) {
-				x.mapDelete(m, args[1])
-				return x.ts.T
+		return x.smapOp(args[0].(Ptr), false, func(m *Map) Value {
+			if i := x.mapFind(m, args[1]); i >= 0 {
+				if x.Branch(x.equal(nil, m.ents[i].v, args[2])) {
+					x.mapDelete(m, args[1])
+					return x.ts.T
+				}
 			}
-		}
-		return x.ts.F
+			return x.ts.F
+		})
 	})
 	reg("(*sync.Map).Range", func(fr *frame, args []Value) Value {
 		x := fr.x
+		// a guarded map in concurrency mode: iterate over the state read at this point
+		x.smapOp(args[0].(Ptr), true, func(m *Map) Value { return nil })
 		m := x.smap(args[0].(Ptr))
 		ents := m.ents
 		for _, e := range ents {
@@ -836,7 +848,13 @@ func (x *Exec) lock(p Ptr, write, try bool) bool {
 				got = true
 				return x.ts.BV(1000, 64), true
 			}
-			if !write && v < 1000 {
+			// more read holders than threads is impossible: without this bound the candidate
+			// values of the lock word (k readers -> k+1 readers) never stabilise
+			maxR := uint64(len(x.cm.threads))
+			if maxR < 4 {
+				maxR = 4
+			}
+			if !write && v < 1000 && v < maxR {
 				got = true
 				return x.ts.BV(v+1, 64), true
 			}
@@ -844,6 +862,11 @@ func (x *Exec) lock(p Ptr, write, try bool) bool {
 		})
 		if !got && !try {
 			panic(pathEnd{kind: "cm-blocked", msg: "lock held"})
+		}
+		if got {
+			if g := x.cm.guardOfLock(p); g != nil {
+				x.cm.guardAcquire(g)
+			}
 		}
 		return got
 	}
@@ -882,6 +905,9 @@ func (x *Exec) lock(p Ptr, write, try bool) bool {
 
 func (x *Exec) unlock(p Ptr, write bool) {
 	if x.cm.active() {
+		if g := x.cm.guardOfLock(p); g != nil && write {
+			x.cm.guardRelease(g)
+		}
 		x.cm.sharedRMW(x.cm.lockCell(p), "unlock", func(o Value) (Value, bool) {
 			v := o.(*Term).C
 			if write {
